@@ -27,13 +27,13 @@ def jobs(tier: str):
             upreds = sorted({(f.split("(")[0], f.count(",") + 1 if "(" in f else 0) for f in j["universe"]})
             inp = [list(p) for p in sorted({tuple(p) for p in inp} | set(upreds))]
         cfgs = [config(AUX_ONLY, inp, [], VOC)]
-        if not quick:
+        if not quick and "~" not in j["family"]:
             cfgs.append(config(compose.OWNER[fam], inp, [], VOC))
             cfgs += [config([t for t in AUX_ONLY if t != drop], inp, [], VOC) for drop in AUX_ONLY]
         return cfgs
 
     fams = ["C08", "C10", "C11", "C12", "C13", "C14", "C16"]
-    yield from compose.remap(compose.family_jobs(fams, tier, variants=12), "C06", mk, keep=slice_keep("quick"))
+    yield from compose.remap(compose.family_jobs(fams, "quick", variants=12 if quick else 60), "C06", mk, keep=slice_keep("quick"))
 
 
 def main(tier: str, seed: int) -> int:
